@@ -60,6 +60,8 @@ IMPL = {
     "note.reset_note": lambda nm, o, nm2, o2: (lambda n: (n.set_note(nm2, o2), [n.name, n.octave, int(n)])[1])(Note(nm, o)),
     "note.reset_sh": lambda nm, o, nm2, o2: (lambda n: [n.name, n.octave])(Note(nm, o).from_shorthand(Note(nm2, o2).to_shorthand())),
     "note.refused_set": lambda which, v: (lambda n: ((_try(lambda: getattr(n, "set_" + which)(v))), [n.velocity, n.channel, _try(lambda: note_list(Note(n)))])[1])(Note("C", 4, velocity=70, channel=3)),
+    "note.cmp_dyn": lambda a, ao, ach, av, b, bo, bch, bv: (lambda x, y: [x < y, x <= y, x == y, x != y, x >= y, x > y])(
+        Note(a, ao, velocity=av, channel=ach), Note(b, bo, velocity=bv, channel=bch)),
     "note.hz": hz_roundtrip,
     # frequencies of NAMED notes (pitch numbers below 0 and above 127 included): [Hz, Hz an octave up, Hz of the enharmonic]
     "note.hz_named": lambda nm, o, nm2, o2, sp: [Note(nm, o).to_hertz(sp), Note(nm, o + 1).to_hertz(sp), Note(nm2, o2).to_hertz(sp)],
@@ -67,7 +69,7 @@ IMPL = {
     "note.roundtrips": roundtrips,
     "note.helmholtz": lambda nm, o: (lambda n: [n.name, n.octave])(Note().from_shorthand(Note(nm, o).to_shorthand())),
 }
-NO_MODEL = {"note.refused_set", "note.hz_named", "note.reset_int", "note.reset_note", "note.reset_sh", "note.hz", "note.copy_indep", "note.roundtrips", "note.helmholtz"}
+NO_MODEL = {"note.cmp_dyn", "note.refused_set", "note.hz_named", "note.reset_int", "note.reset_note", "note.reset_sh", "note.hz", "note.copy_indep", "note.roundtrips", "note.helmholtz"}
 
 def has_model(c):
     return c["fn"] not in NO_MODEL
@@ -86,6 +88,10 @@ def cases(tier, rng):
         yield Case("note.copy_indep", [x, 4], "copy", model=False)
     for i in list(range(-30, 160)):
         yield Case("note.from_int", [i], "from_int")
+    # comparisons are about the pitch number only: channel and velocity play no part
+    for a, ao, b, bo in (("C#", 4, "Db", 4), ("C", 4, "C", 4), ("B#", 3, "C", 4), ("C", 4, "D", 4), ("E", 5, "E", 4), ("Cb", 0, "B", 0)):
+        for ach, av, bch, bv in ((2, 64, 9, 64), (1, 10, 1, 120), (0, 0, 15, 127), (5, 64, 5, 64)):
+            yield Case("note.cmp_dyn", [a, ao, ach, av, b, bo, bch, bv], "cmp/channel-velocity", model=False)
     # a setter that refuses its value: the note keeps the old one (and can still be copied)
     for which, vals in (("velocity", (-1, 128, 200, 127, 0)), ("channel", (-1, 16, 99, 15, 0))):
         for v in vals:
@@ -182,6 +188,11 @@ def oracle(c, obs):
         if c["tag"] == "malformed":
             return None if isinstance(obs, Err) and obs.name in ("NoteFormatError", "ValueError", "IndexError") else "malformed name not rejected"
         return None
+    if fn == "note.cmp_dyn":
+        x = 12 * a[1] + NATURAL[a[0][0]] + net(a[0])
+        y = 12 * a[5] + NATURAL[a[4][0]] + net(a[4])
+        return None if obs == [x < y, x <= y, x == y, x != y, x >= y, x > y] else \
+            "comparison operators disagree with comparing the pitch numbers (channel and velocity differ)"
     if fn == "note.refused_set":
         which, v = a
         ok = 0 <= v <= (127 if which == "velocity" else 15)
